@@ -185,6 +185,12 @@ func famCrash(r *Rand, base, pool, at, at2 int) *seqScenario {
 		b.cmd(seqCmd{Op: "crash", Inst: 0})
 	}
 	b.cmd(seqCmd{Op: "start", Inst: 0})
+	if r.Chance(35) {
+		// the restart itself hits a transient storage fault on one of its reads (lock, checkpoint, legacy probe, staged
+		// bundle, edge tiles): it must fail or load the committed tree, never something else; then a clean restart
+		b.cmd(seqCmd{Op: "run", Inst: 0, Faults: map[string]string{fmt.Sprint(r.Intn(6)): "errN"}})
+		b.cmd(seqCmd{Op: "start", Inst: 0})
+	}
 	b.cmd(seqCmd{Op: "run", Inst: 0})
 	if r.Chance(35) {
 		// the clock stalls or steps back to around the time of the crashed round's tree head
